@@ -17,7 +17,7 @@ func init() {
 		Title: "Finished or abandoned calls never disable a node",
 		Run:   runC09,
 		Meta: core.PropertyMeta{
-			Explanation: "Decides the absence of the structural ingredients of a permanent wedge. W1: for every client-side mutex, every blocking operation executed while it is held (directly, in callees or in deferred calls; lock-state dataflow + interprocedural blocking classifier) is either absent, or (responseMut) a reply-channel send whose channel provably cannot be full (W3), or (streamMut read hold) a stream operation such that every write-lock request from another goroutine root is control-dependent on an error of a stream operation (so the held operation is about to fail too), or (streamMut write hold) stream creation, which is what the lock serialises. W2: reconnect re-checks 'stream already up' under the write lock before creating a stream. W3: reply-channel capacity covers the number of deliveries; a channel that can be registered as streaming has no such bound, so delivery to it must not be a plain blocking send under the lock. W4: a server-stream correctable registers a deferred router deletion for every node before its loop. W5: the 'held while acquiring' graph over all mutexes is acyclic and has no self-edge.",
+			Explanation: "Decides the absence of the structural ingredients of a permanent wedge. W1: for every client-side mutex, every blocking operation executed while it is held (directly, in callees or in deferred calls; lock-state dataflow + interprocedural blocking classifier) is either absent, or (responseMut) a reply-channel send whose channel provably cannot be full (W3), or (streamMut read hold) a stream operation such that every write-lock request from another goroutine root is control-dependent on an error of a stream operation (so the held operation is about to fail too), or (streamMut write hold) stream creation, which is what the lock serialises. W2: reconnect re-checks 'stream already up' under the write lock before creating a stream. W3: reply-channel capacity covers the number of deliveries; a channel that can be registered as streaming has no such bound, so delivery to it must not be a plain blocking send under the lock. W4: a server-stream correctable registers a deferred router deletion for every node before its loop. W5: the 'held while acquiring' graph over all mutexes is acyclic and has no self-edge. W12: every configuration lists its nodes in one global order (C14-G1 re-run).",
 			NotDecided:  "That a reachable, responsive node *is* answered (liveness); gRPC internals; the latency of user quorum functions as such.",
 			Trusted:     append([]string{"a stream operation on a broken stream returns an error", "sync.RWMutex blocks new readers behind a waiting writer"}, commonTrust...),
 		},
